@@ -114,7 +114,7 @@ def run(tier: str) -> int:
     cfgs = configs(tier)
     run_.bounds = {"depth": depth, "alphabet": [list(e) for e in ALPHABET], "configs": len(cfgs), "segment_len": 2, "file_size": 4}
     worlds = [C05World(**kw) for kw in cfgs]
-    kw = dict(check_cycles=False, max_depth=depth, validate_stride=1999, validate_terminals=5, n_samples=1, max_states=1_500_000)
+    kw = dict(check_cycles=False, max_depth=depth, validate_stride=1999, validate_terminals=5, n_samples=1, max_states=1_500_000, max_wall=(600 if tier == 'quick' else None))
     if tier == "quick":
         results = explore_many(worlds, procs=NPROC, **kw)
     else:
